@@ -64,7 +64,7 @@ def tags_effect(c, bv, key, newhas):
   old_has = lambda x: z3.And(h0.has(Tg, key), h0.has(ref(h0.dget(Tg, key)), x))
   ts = ref(h.dget(Tg, key))
   return z3.And(
-      h.has(Tg, key), isref(h, h.dget(Tg, key), 'set'),
+      h.has(Tg, key), isref(h, h.dget(Tg, key), 'set'), ts < h.alloc,
       z3.If(h0.has(Tg, key), h.dget(Tg, key) == h0.dget(Tg, key), ts >= h0.alloc),
       FA([t], h.has(ts, t) == newhas(t, old_has(t)), patterns=[h.has(ts, t)]),
       FA([k], z3.Implies(k != key, z3.And(
@@ -194,4 +194,134 @@ contract(
     mod=lambda c: [ref(CF.bfields(c.old, c['buildable'])[3])], props=('C14',),
     note='a fresh frozenset with exactly the tags of the addressed argument (the lookup may '
          'materialise an empty set in the defaultdict, which is the same abstract tag map)',
+)
+
+
+# --- set_tags (C14, C16): clear, add every tag, then one summary entry -----------------------------
+from pyvc.expr import dkeys_cnt, dkeys_seq, dkeys_pos, dkeys_axioms   # noqa: E402
+
+
+def _st_terms(c):
+  h0 = c.old
+  bv = c['buildable']
+  si, A, Hh, Tg = CF.bfields(h0, bv)
+  key = tag_key(h0, bv, c['argument'])
+  th0 = h0.hasarr(ref(c['tags']))
+  return h0, bv, Hh, ref(Tg), key, th0
+
+
+def _st_n0(c):
+  h0, bv, Hh, Tg, key, th0 = _st_terms(c)
+  return z3.If(h0.has(ref(Hh), key), h0.len(H.hist_list(h0, ref(Hh), key)), z3.IntVal(0))
+
+
+def _st_req(c):
+  h0, bv, Hh, Tg, key, th0 = _st_terms(c)
+  t = z3.Const('st_t', Val)
+  k = z3.Const('st_k', Val)
+  tv = c['tags']
+  return z3.And(
+      CF.BInv(h0, bv), arg_ok(c['argument']),
+      isref(h0, tv, 'set'), ref(tv) < h0.alloc,
+      FA([t], z3.Implies(th0[t], z3.And(is_VRef(t), ref(t) < h0.alloc)), patterns=[th0[t]]),
+      # the collection passed in is not one of the Buildable's own tag sets (clear_tags would
+      # empty it before it is read)
+      FA([k], z3.Implies(h0.has(Tg, k), ref(h0.dget(Tg, k)) != ref(tv)), patterns=[h0.dget(Tg, k)]))
+
+
+def hist_k(c, Hv, key, cnt, last_snap=None):
+  """Exactly `cnt` fresh UPDATE_TAGS entries were appended, in order, to the history list of `key`
+  (consecutive sequence numbers), no other history list changed."""
+  h0, h = c.old, c.heap
+  Hr = ref(Hv)
+  k = z3.Const('hk_k', Val)
+  i = z3.Int('hk_i')
+  l = H.hist_list(h, Hr, key)
+  l0 = H.hist_list(h0, Hr, key)
+  had = h0.has(Hr, key)
+  n0 = z3.If(had, h0.len(l0), z3.IntVal(0))
+  e = lambda ix: h.elt(l, ix)
+  conj = [
+      h.has(Hr, key), is_VRef(h.dget(Hr, key)), cls_is(h.cls(l), 'list'),
+      z3.If(had, l == l0, l >= h0.alloc),
+      h.len(l) == n0 + cnt,
+      FA([i], z3.Implies(z3.And(0 <= i, i < n0), e(i) == h0.elt(l0, i)), patterns=[e(i)]),
+      FA([i], z3.Implies(z3.And(0 <= i, n0 <= i, i < n0 + cnt), z3.And(
+          is_VRef(e(i)), ref(e(i)) >= h0.alloc, ref(e(i)) < h.alloc,
+          cls_is(h.cls(ref(e(i))), 'HistoryEntry'),
+          h.fld(ref(e(i)), 'sequence_id') == VInt(H.counter(h0) + (i - n0)),
+          h.fld(ref(e(i)), 'param_name') == key,
+          h.fld(ref(e(i)), 'kind') == CK_UPDATE_TAGS)), patterns=[e(i)]),
+      H.counter(h) == H.counter(h0) + cnt,
+      FA([k], z3.Implies(k != key, z3.And(h.has(Hr, k) == h0.has(Hr, k),
+                                          h.dget(Hr, k) == h0.dget(Hr, k))),
+         patterns=[h.has(Hr, k), h.dget(Hr, k)])]
+  if last_snap is not None:
+    conj.append(last_snap(ref(e(n0 + cnt - 1))))
+  return z3.And(conj)
+
+
+def _st_hist(c, cnt, last_snap=None):
+  h0, bv, Hh, Tg, key, th0 = _st_terms(c)
+  h = c.heap
+  Hr = ref(Hh)
+  unchanged = z3.And(h.hasarr(Hr) == h0.hasarr(Hr), h.valarr(Hr) == h0.valarr(Hr),
+                     H.counter(h) == H.counter(h0))
+  return z3.If(H.tracking_on(h0), hist_k(c, Hh, key, cnt, last_snap), unchanged)
+
+
+def _st_inv(c):
+  h0, bv, Hh, Tg, key, th0 = _st_terms(c)
+  h = c.heap
+  j = c.k
+  k = z3.Const('st_k', Val)
+  return z3.And(
+      0 <= j, j <= dkeys_cnt(th0),
+      c.v('buildable') == bv, c.v('argument') == c['argument'], c.v('tags') == c['tags'],
+      CF.BInv(h, bv), CF.internals_same(h, h0, bv), CF.store_eq(h, h0, bv),
+      h.hasarr(ref(c['tags'])) == th0,
+      tags_effect(c, bv, key, lambda t, old: z3.And(th0[t], dkeys_pos(th0, t) < j)),
+      FA([k], z3.Implies(h.has(Tg, k), ref(h.dget(Tg, k)) != ref(c['tags'])), patterns=[h.dget(Tg, k)]),
+      H.tracking_on(h) == H.tracking_on(h0),
+      _st_hist(c, 1 + j))
+
+
+def _st_loop_mod(c):
+  """Objects (existing at the loop head) the loop may modify; c.heap is the heap at the loop head."""
+  h0, bv, Hh, Tg, key, th0 = _st_terms(c)
+  h = c.heap
+  Hr = ref(Hh)
+  return [Tg, Hr, ref(SET_COUNTER),
+          z3.If(h.has(Tg, key), ref(h.dget(Tg, key)), ref(H.NOTHING)),
+          z3.If(h.has(Hr, key), H.hist_list(h, Hr, key), ref(H.NOTHING))]
+
+
+def _st_post(c):
+  h0, bv, Hh, Tg, key, th0 = _st_terms(c)
+  h = c.heap
+  t = z3.Const('sp_t', Val)
+  def snap(er):
+    fs = ref(h.fld(er, 'new_value'))
+    return FA([t], h.has(fs, t) == th0[t], patterns=[h.has(fs, t)])
+  return z3.And(CF.BInv(h, bv), CF.internals_same(h, h0, bv), CF.store_eq(h, h0, bv),
+                tags_effect(c, bv, key, lambda t_, old: th0[t_]),
+                _st_hist(c, dkeys_cnt(th0) + 2, snap))
+
+
+contract(
+    'tagging.set_tags', F, 'set_tags', requires=_st_req, ensures=_st_post,
+    raises={'AttributeError': _van_attr, 'IndexError': _van_index},
+    raises_post={'AttributeError': _tag_unchanged, 'IndexError': _tag_unchanged},
+    mod=_tag_mod, writes=CF.WRITES, result='none',
+    loops={0: Loop(_st_inv, mod=_st_loop_mod, fields=list(CF.WRITES),
+                   pivots=lambda c: [c.k, _st_n0(c) + 1 + c.k, _st_n0(c)])},
+    pivots=lambda c: [_st_n0(c) + dkeys_cnt(_st_terms(c)[5]) + 1, _st_n0(c)],
+    cases=_tag_cases,
+    entry_facts=lambda c: [('dkeys', c.old.hasarr(ref(c['tags'])), None)],
+    props=('C14', 'C16'),
+    note='the tag set of the addressed argument becomes exactly the given collection; no other tag '
+         'set, no argument changes; with tracking on exactly |tags| + 2 UPDATE_TAGS entries are '
+         'appended to the history list of that argument\'s canonical key (consecutive sequence '
+         'numbers; the last one holds the final set) and no other history list changes; invalid '
+         'name/index raises and changes nothing',
 )
